@@ -208,6 +208,32 @@ func (w *ksWorld) applyOp(p *run.Part, o ksOp, c ksCase, judge bool) bool {
 			viol("C20:create-succeeded-without-the-write", fmt.Sprintf("CreateKey(%s) returned a key although the datastore refused the write", o.ID))
 		}
 		w.missed[o.I]["createfail:"+o.ID] = true
+	case "identcancel":
+		// CreateIdentity under a context that is already cancelled: it may fail, it may succeed; what it must not do is
+		// replace key material that exists (a lookup that fails for ANY reason is not "the key does not exist")
+		cctx, cancel := context.WithCancel(ctx)
+		cancel()
+		before := map[string][]byte{}
+		for id := range w.created {
+			if v, err := w.fd.Datastore.Get(ctx, ds.NewKey(id)); err == nil {
+				before[id] = v
+			}
+		}
+		_, _ = idp.CreateIdentity(cctx, &idp.CreateIdentityOptions{Keystore: ks, ID: o.ID, Type: "orbitdb"})
+		for id, v := range before {
+			if now, err := w.fd.Datastore.Get(ctx, ds.NewKey(id)); err != nil || !bytes.Equal(now, v) {
+				viol("C20:stored-key-replaced:cancelled-context", fmt.Sprintf("CreateIdentity(%s) under a cancelled context replaced the stored key of %s", o.ID, w.abstract(id)))
+			}
+		}
+		// keys it may have created are new facts of the world
+		for _, id := range []string{o.ID} {
+			if _, ok := w.created[id]; !ok {
+				if v, err := w.fd.Datastore.Get(ctx, ds.NewKey(id)); err == nil {
+					w.created[id] = v
+				}
+			}
+		}
+		w.missed[o.I]["identcancel:"+o.ID] = true
 	case "get":
 		k, err := ks.GetKey(ctx, o.ID)
 		want, ok := w.created[o.ID]
@@ -389,7 +415,7 @@ func c20Run(p *run.Part, tier string) {
 	for i := 0; i < 2; i++ {
 		alpha = append(alpha, ksOp{K: "fill", I: i}, ksOp{K: "reopen", I: i})
 	}
-	alpha = append(alpha, ksOp{K: "createfail", I: 0, ID: "a"})
+	alpha = append(alpha, ksOp{K: "createfail", I: 0, ID: "a"}, ksOp{K: "identcancel", I: 1, ID: "a"})
 	// has/get on the derived id of a are part of the alphabet too (the id an identity denotes)
 	seen := map[string]bool{newKsWorld().key(): true}
 	frontier := [][]ksOp{{}}
